@@ -1,5 +1,5 @@
-import CardVerif.Model.Pot
-import CardVerif.Model.Evaluators
+import CardModel.Model.Pot
+import CardModel.Model.Evaluators
 /-!
 # The betting state machine
 
